@@ -223,6 +223,9 @@ Definition dispatch_deb822 (fn : str) (args : list val) : option val :=
       else if fn_is "is_cont" fn then Some (VBool (is_cont a))
       else if fn_is "text_lines" fn then Some (VStrs (text_lines a))
       else None
+  | [VStr a; VInt k] =>
+      if fn_is "groups_offset" fn then Some (VRes VGroups (groups_offset a (Z.to_N k)))
+      else None
   | _ => None
   end.
 
